@@ -59,6 +59,10 @@ int main(int argc, char** argv)
 		  if (c["list"].length() != 2 || c["sub"]["deep"].length() != 1 || !(c["sub"]["v"] == Var(1))) { printf("REPRODUCED clone of an object shares a nested container with the original\n"); return 1; }
 		  c["list"] << 9 << 9; if (o["list"].length() != 3) { printf("REPRODUCED original changed through its clone\n"); return 1; } }
 		{ Var a = Var::ARRAY; Var in = Var::ARRAY; in << 1; a << in << "s"; Var c = a.clone(); a[0] << 2; if (c[0].length() != 1) { printf("REPRODUCED clone of an array shares a nested array\n"); return 1; } }
+		// appending an array's own element at every fill level (the append may reallocate the array); extend() copies falsy values
+		for (int n = 1; n <= 30; n++) for (int src : { 0, n - 1 }) { Var a = Var::ARRAY; for (int i = 0; i < n; i++) a << String::f("element-%i-with-a-long-heap-allocated-text", i); Var want = a[src].clone(); a << a[src]; if (a.length() != n + 1 || !(a[n] == want) || !(a[src] == want)) { printf("REPRODUCED a << a[%d] with %d elements\n", src, n); return 1; } }
+		{ Var base; base["count"] = 7; base["name"] = "n"; base["flag"] = true; base["keep"] = 1; Var upd; upd["count"] = 0; upd["name"] = ""; upd["flag"] = false; upd["nul"] = Var::NUL; upd["x"] = 0.0; base.extend(upd);
+		  if (!(base["count"] == Var(0)) || !(base["name"] == Var("")) || !(base["flag"] == Var(false)) || !base.has("nul") || !base.has("x") || !(base["keep"] == Var(1))) { printf("REPRODUCED extend() skipped a property whose value is 0 / false / \"\" / null\n"); return 1; } }
 		// a copy of a string Var is a value of its own: assigning to one leaves the other unchanged, for every pair of lengths around the inline boundary
 		for (int n1 : { 0, 3, 7, 8, 9, 20, 40 }) for (int n2 : { 0, 7, 8, 12, 30, 200 }) { std::string t1(n1, 'p'), t2(n2, 'q'); Var a = String(t1.c_str()); Var b = a; Var arr = Var::ARRAY; arr << a;
 			a = String(t2.c_str()); if (std::string(*b.toString()) != t1 || std::string(*arr[0].toString()) != t1) { printf("REPRODUCED a copy of a %d-character string Var changed when the original was assigned a %d-character string\n", n1, n2); return 1; }
